@@ -998,16 +998,20 @@ fn main() {
     // watchdog: a case that runs longer than the limit is reported as a hang
     let cur = Arc::new(AtomicUsize::new(usize::MAX));
     let started = Arc::new(AtomicU64::new(0));
+    // time limit of the current case in ms: 10 s, plus 1 s per 5 000 characters of the case line (the cases with inputs
+    // of several hundred KB print tens of MB and may take seconds on a loaded machine)
+    let limit = Arc::new(AtomicU64::new(10_000));
     let t0 = std::time::Instant::now();
     {
         let cur = cur.clone();
         let started = started.clone();
+        let limit = limit.clone();
         std::thread::spawn(move || loop {
             std::thread::sleep(std::time::Duration::from_millis(200));
             let c = cur.load(Ordering::SeqCst);
             if c != usize::MAX {
                 let now = t0.elapsed().as_millis() as u64;
-                if now.saturating_sub(started.load(Ordering::SeqCst)) > 10_000 {
+                if now.saturating_sub(started.load(Ordering::SeqCst)) > limit.load(Ordering::SeqCst) {
                     // cannot use the locked writer: report on stderr and exit
                     eprintln!("#hang {}", c);
                     std::process::exit(3);
@@ -1023,6 +1027,7 @@ fn main() {
         }
         writeln!(out, "#case {}", i).unwrap();
         out.flush().unwrap();
+        limit.store(10_000 + (line.len() as u64) / 5, Ordering::SeqCst);
         started.store(t0.elapsed().as_millis() as u64, Ordering::SeqCst);
         cur.store(i, Ordering::SeqCst);
         let t: Vec<&str> = line.split(' ').collect();
